@@ -18,7 +18,7 @@ EXPLANATION = (
     "rows consistent with the recorded invariants (record_job_end is the only writer of end_time/call_hash/cached and writes all three; "
     "a call node always has a value) are enumerated exhaustively; for each row and status the SQL filter term (3-valued) matches iff the "
     "displayed status equals it; C33.2 the same through Execution._job_status2exec_status and the DONE=>+CACHED widening; "
-    "C33.3 the error type-name constants agree."
+    "C33.3 the error type-name constants agree. C33.4 sibling cross-check: the console (redun/console/screens.py) joins the result Value through CallNode.value_hash with outer joins, and the execution screen's own --status filter chain is evaluated over the same consistent job rows against the displayed status."
 )
 
 DB = "redun/backends/db/__init__.py"
@@ -168,3 +168,70 @@ def run(ctx):
             mt = any(matches(x, row) for x in js)
             r2.check(mt == (d == s), f"{qm.rel}:CallGraphQuery.filter_execution_statuses:{s}:{rowname}", f"execution with {rowname} is displayed {d} but filter {s} {'matches' if mt else 'does not match'}", qm.rel, fes.lineno, note=f"display={d}")
     ctx.assume("an Execution row is only written together with its root Job row (record_job_start), so executions without a root job are outside the table")
+    _console_rules(ctx, repo, display, ERR, err_q, JOB_STATUSES)
+
+
+def _console_rules(ctx, repo, display, ERR, err_q, JOB_STATUSES):
+    """C33.4: the console's own copies of the status logic (sibling implementations) agree with the displayed status."""
+    import itertools
+
+    from ..tables import sql_eval
+
+    r4 = ctx.rule("C33.4", "the console's status filters and result-type joins agree with the displayed status", floor=6)
+    cm = repo.mod("redun/console/screens.py")
+    lj = cm.func("ExecutionScreen.load_jobs")
+    # (a) every join of Value onto CallNode in the console goes through the call node's *result* hash
+    njoin = 0
+    for q, fn in cm.funcs.items():
+        for c in calls_in(fn):
+            if isinstance(c.func, ast.Attribute) and c.func.attr in ("outerjoin", "join") and c.args and src(c.args[0]) == "Value" and len(c.args) >= 2 and "CallNode" in src(c.args[1]):
+                njoin += 1
+                cond = c.args[1]
+                ok = isinstance(cond, ast.Compare) and {src(cond.left), src(cond.comparators[0])} == {"CallNode.value_hash", "Value.value_hash"}
+                r4.check(
+                    ok,
+                    f"{cm.rel}:{q}:join(Value)",
+                    f"`{src(c.args[1])}` joins the result Value through the wrong column: the result type is NULL for every job, so failed jobs are displayed as DONE/CACHED while the FAILED filter returns them",
+                    cm.rel,
+                    c.lineno,
+                )
+                r4.check(c.func.attr == "outerjoin", f"{cm.rel}:{q}:outerjoin(Value)", "the result Value is inner-joined: running jobs vanish from the list", cm.rel, c.lineno)
+    if njoin < 2:
+        raise AnalysisError(f"only {njoin} Value joins found in the console", "redun/console/screens.py")
+    # (b) the status filter chain of the execution screen
+    chain = None
+    for n in ast.walk(lj):
+        if isinstance(n, ast.If) and isinstance(n.test, ast.Compare) and src(n.test.left) == "status" and isinstance(n.test.ops[0], ast.Eq):
+            chain = n
+            break
+    if chain is None:
+        raise AnalysisError("ExecutionScreen.load_jobs: status filter chain not found", "ExecutionScreen.load_jobs")
+    terms = {}
+    cur = chain
+    while cur is not None:
+        st = const_str(cur.test.comparators[0])
+        flt = next((c for b in cur.body for c in ast.walk(b) if isinstance(c, ast.Call) and isinstance(c.func, ast.Attribute) and c.func.attr == "filter"), None)
+        if st is None or flt is None or len(flt.args) != 1:
+            raise AnalysisError(f"ExecutionScreen.load_jobs: arm `{src(cur.test)}` is not `query = query.filter(<term>)`", "ExecutionScreen.load_jobs")
+        terms[st] = flt.args[0]
+        cur = cur.orelse[0] if len(cur.orelse) == 1 and isinstance(cur.orelse[0], ast.If) else None
+    missing = [s for s in JOB_STATUSES if s not in terms]
+    if missing:
+        raise AnalysisError(f"console status filter has no arm for {missing}", "ExecutionScreen.load_jobs")
+    for end_time, call_hash, cached, typ in itertools.product([None, "t"], [None, "h"], [False, True], [None, ERR, "other.Type"]):
+        consistent = ((end_time is None) == (call_hash is None)) and ((call_hash is None) == (typ is None)) and (not cached or end_time is not None)
+        if not consistent:
+            continue
+        row = {"end_time": end_time, "call_hash": call_hash, "cached": cached, "type": typ}
+        d = display(row)
+        cols = {"Job.end_time": end_time, "Job.call_hash": call_hash, "Job.cached": cached, "Value.type": typ}
+        for s in JOB_STATUSES:
+            mt = sql_eval(terms[s], cols, {"REDUN_ERROR_TYPE_NAME": err_q}) is True
+            rowname = f"ended={end_time is not None},result={'NULL' if typ is None else ('Error' if typ == ERR else 'other')},cached={cached}"
+            r4.check(
+                mt == (d == s),
+                f"{cm.rel}:ExecutionScreen.load_jobs:{s}:{rowname}",
+                f"console filter --status {s} {'matches' if mt else 'does not match'} a job row ({rowname}) that is displayed as {d}",
+                cm.rel,
+                chain.lineno,
+            )
